@@ -21,12 +21,17 @@ type C28Scn struct {
 	RpcFrag uint64   `json:"rpc_frag,omitempty"` // != 0: calls are sent as multi-fragment records
 	LatMs   int      `json:"latency_ms"`
 	Sched   SchedCfg `json:"sched"`
+	// a client that takes its time: silence between connecting and the first call, and between the calls
+	// (always well below the default IdleTimeout of 5 minutes, so the server has no reason to hang up)
+	PreCallMs int `json:"pre_call_ms,omitempty"`
+	GapMs     int `json:"gap_ms,omitempty"`
+	DialMs    int `json:"dial_ms,omitempty"` // the client connects this long after the server started (e.g. just before a housekeeping tick)
 }
 
 func init() {
 	Register(&Prop{
 		ID: "C28", Level: "exploration",
-		Rule: "one case = (start-up path in {AbsfsNFS.Export, NewServer+Listen with record marking, StartWithPortmapper}, port 0 or explicit, debug on/off, transport segmentation/latency, calls sent as single-fragment records or (40%) split into up to 12 record-marking fragments incl. empty ones, schedule seed); non-trivial = the server started and the client completed the write of its NULL call; distinct by event digest",
+		Rule: "one case = (start-up path in {AbsfsNFS.Export, NewServer+Listen with record marking, StartWithPortmapper}, port 0 or explicit, debug on/off, transport segmentation/latency, calls sent as single-fragment records or (40%) split into up to 12 record-marking fragments incl. empty ones, a client that connects 0-299 s after start-up (also just before the housekeeping ticks at 60 s multiples) and waits 0.2-100 s between connecting and its first call (a connection closed by the server within 20 s of being opened is a failure) and 0.1-50 s between calls (20%, reconnecting if the server's read deadline closed the idle connection), schedule seed); non-trivial = the server started and the client completed the write of its NULL call; distinct by event digest",
 		Gen: func(r *simrt.Rand, tier string) any {
 			sc := &C28Scn{Path: []string{"export", "listen_rm", "portmapper"}[r.Int(3)], Debug: r.Pct(30), Segment: r.Pct(50), LatMs: r.Int(3) * r.Int(20)}
 			if r.Pct(40) {
@@ -34,6 +39,18 @@ func init() {
 			}
 			if r.Pct(50) {
 				sc.Port = 2049 + r.Int(5)
+			}
+			if r.Pct(30) {
+				sc.PreCallMs = []int{300, 1200, 20000, 40000, 100000}[r.Int(5)]
+			}
+			if r.Pct(25) {
+				sc.DialMs = []int{900, 29500, 59000, 59900, 119500, 299000}[r.Int(6)]
+				if sc.PreCallMs == 0 || sc.PreCallMs > 20000 {
+					sc.PreCallMs = []int{200, 1200, 5000}[r.Int(3)]
+				}
+			}
+			if r.Pct(20) {
+				sc.GapMs = []int{100, 6000, 25000, 50000}[r.Int(4)]
 			}
 			if r.Pct(50) {
 				sc.Sched = RandSched(r)
@@ -119,6 +136,7 @@ func runC28(t *testing.T, scAny any, trace bool) *Outcome {
 			return
 		}
 		w.Port = port
+		simrt.Sleep(time.Duration(sc.DialMs) * time.Millisecond)
 		cl, err := w.Dial("127.0.0.1:800", RootCred, &simrt.ConnFaults{Segment: sc.Segment, Latency: time.Duration(sc.LatMs) * time.Millisecond})
 		if err == nil {
 			cl.FragSeed = sc.RpcFrag
@@ -133,16 +151,38 @@ func runC28(t *testing.T, scAny any, trace bool) *Outcome {
 			o.Vio("C28.no-conformant-reply", fmt.Sprintf("path=%s,step=%s", sc.Path, step), "start-up path %s: conformant record-marking client got no well-formed reply to %s: %v", sc.Path, step, err)
 		}
 		o.NonTrivial = true
+		simrt.Sleep(time.Duration(sc.PreCallMs) * time.Millisecond)
+		if sc.PreCallMs > 0 && sc.PreCallMs <= 20000 && cl.Conn.PeerClosed() {
+			// well inside the read deadline (30 s) and the idle time-out (5 min): nothing entitles the server to
+			// hang up on a connection that has just been opened
+			fail("first-call", fmt.Errorf("the server closed the connection %d ms after it was opened (opened %d ms after start-up), before the first call", sc.PreCallMs, sc.DialMs))
+			return
+		}
+		gap := func() {
+			if sc.GapMs > 0 {
+				simrt.Sleep(time.Duration(sc.GapMs) * time.Millisecond)
+				if cl.Dead || cl.Conn.PeerClosed() {
+					// a conformant client reconnects when the server's per-read deadline closed an idle
+					// connection (that is the server's documented behaviour, not a failure to speak RPC)
+					if nc, derr := simrt.Dial(cl.addr, cl.port, cl.faults); derr == nil {
+						cl.Conn.Close()
+						cl.Conn, cl.Dead = nc, false
+					}
+				}
+			}
+		}
 		rep, err := cl.RawCall(nfsclient.ProgNFS, 3, nfsclient.NFSProcNull, nil)
 		if err != nil || rep.Stat != nfsclient.MsgAccepted || rep.AcceptStat != nfsclient.Success || len(rep.Results) != 0 {
 			fail("NULL", orStat(err, rep))
 			return
 		}
+		gap()
 		fh, _, err := cl.Mount("/")
 		if err != nil {
 			fail("MNT", err)
 			return
 		}
+		gap()
 		ga, err := cl.Getattr(fh)
 		if err != nil || ga.Status != 0 || ga.Attr == nil || ga.Attr.Type != 2 {
 			fail("GETATTR", fmt.Errorf("err=%v res=%+v", err, ga))
